@@ -636,7 +636,9 @@ def rule_06_6(rep, fx, pre=''):
             n += 1
             blocks = inl[0][1]
             # the remaining-bytes buffer must be the same object on every cycle: the call's argument is a &mut to a local of the function, not a fresh copy made in the loop
-            errs = [(s_, t_) for s_, t_, cond, lab in edges if lab in ('Err', 'Break') and cond[0] == 'discr' and term_has(cond, lambda x: x[0] == 'call' and len(x) > 3 and x[3] == bb and x[1].endswith('read_from_buffer'))]
+            # (primary edges: the re-tests of the discriminant that drop elaboration puts after a `match` are not decisions of the program)
+            errs = [(s_, t_) for s_, t_, cond, lab in primary_edges(b, edges) if lab in ('Err', 'Break') and cond[0] == 'discr' and
+                    term_has(cond, lambda x: x[0] == 'call' and len(x) > 3 and x[3] == bb and x[1].endswith('read_from_buffer'))]
             ok = bool(errs) and not any(P.can_reach((t_, 0), (bb, 'term')) for s_, t_ in errs)
             # results that are neither Ok nor Err-tested (e.g. `.ok()`, `if let Ok(..)`) hide the error edge: require that the result is inspected by a switch at all
             rep.check(ok, 'R06.6', '%s%s/error-leaves-loop#%d' % (pre, b.key.rsplit('::', 2)[-2] + '::' + b.key.rsplit('::', 1)[-1], n), 'Err => out of the loop',
